@@ -36,6 +36,10 @@ def run(tier):
         ordering.colamd_rules(chk, 'C10.D4', prog, cfgname)
         ordering.downward_slot_rule(chk, 'C10.slot', prog, cfgname)
         ordering.sentinel_bound_rule(chk, 'C10.sentinel', prog, cfgname)
+        chk.clause('C10.view', 'the permuted-column view carries the dimensions and types of A itself')
+        ordering.view_header_rule(chk, 'C10.view', prog, cfgname)
+        chk.clause('C10.weight', 'minimum degree: the weight of an absorbed node moves to its absorber and the node is left with weight zero')
+        ordering.mmd_weight_rule(chk, 'C10.weight', prog, cfgname)
         n2 = preorder.run(chk, 'C10.D3', prog, eff, cfgname)
         if n1 < 6 or n2 < 5:
             raise AnalysisBroken('C10: %d get_perm_c leaves, %d sp_preorder leaves; floors 6, 5' % (n1, n2))
